@@ -356,6 +356,14 @@ func checkC09(c *Check) {
 	if sr, miss := getStoreRoles(P); c.Anchor("C09.R6", "session stores", len(miss) == 0) {
 		refile(c, "C09.R6", func() { c10R3(c, sr) })
 	}
+	// what a refresh writes back is what the exchange produced: the refresh helper returns a freshly built object and only
+	// after a successful exchange (C01.R2) — handing the stored tokens back on a failed round trip makes the caller
+	// re-create, with the old tokens, a session that a logout removed while the round trip was in flight
+	if c.ID == "C09" {
+		importObls(c, "C01", checkC01, "C09.R4", func(o *Obligation) bool {
+			return strings.HasPrefix(o.Key, "C01.R2/refresh-result-is-a-new-object") || (strings.HasPrefix(o.Key, "C01.R2/allow/") && strings.Contains(o.Why, "refresh helper summary"))
+		})
+	}
 
 	// ---- R4
 	// the callback re-checks the session after the code exchange: between the blocking token-endpoint round trip and
